@@ -82,7 +82,7 @@ func New(o Opts) *B {
 		caps = mqtt.NewDefaultServerCapabilities()
 	}
 	if o.QuiesceTimeout == 0 {
-		o.QuiesceTimeout = 5 * time.Second
+		o.QuiesceTimeout = 30 * time.Second
 	}
 	srv := mqtt.New(&mqtt.Options{
 		Capabilities:             caps,
@@ -316,7 +316,7 @@ func (b *B) Shutdown() {
 	go func() { b.wg.Wait(); close(done) }()
 	select {
 	case <-done:
-	case <-time.After(3 * time.Second):
+	case <-time.After(20 * time.Second):
 		b.Hung = true
 	}
 }
